@@ -333,6 +333,15 @@ func (m *C14Mon) Wait(h *Hand, s *pokerface.GameState) {
 	}
 }
 
+// Stuck: the expected step was refused. What the refusal left behind is looked at like any other state
+// (a street that was announced but not dealt shows here: round "river" with a four-card board)
+func (m *C14Mon) Stuck(h *Hand, why string) {
+	h.Rep.Inc("hands_stuck")
+	if h.G != nil && h.G.GetState() != nil && strings.HasPrefix(why, "expected-step-refused") {
+		m.Wait(h, h.G.GetState())
+	}
+}
+
 func (m *C14Mon) End(h *Hand, s *pokerface.GameState) {
 	// cards once dealt never change - also not when the table starts its next hand from the same options
 	// value (the same deck slice, shuffled in place by Start) while this hand's state is still around
